@@ -791,3 +791,74 @@ def residual_source(body, t):
         if x[0] == "call" and not x[1].startswith("std::") and not x[1].startswith("core::") and not x[1].split("::")[-1].startswith("{closure"):
             return x[1]
     return None
+
+
+def value_fates(body, def_bi):
+    """Where does the value returned by the call in block def_bi end up?  Tracks moves between locals on all paths.
+    Returns a set of fates: ('call', callee_path) | ('return',) | ('store', field_or_place) | ('drop',) | ('await',)
+    | ('agg', adt)"""
+    t = body.blocks[def_bi]["t"]
+    if t.get("to") is None:
+        return set()
+    fates = set()
+    if "p" in t["dst"]:
+        fates.add(("store", _last_field(t["dst"]) or "?"))
+        return fates
+    start = (t["to"], frozenset([t["dst"]["l"]]))
+    seen = {start}
+    stack = [start]
+    while stack:
+        bi, holders = stack.pop()
+        h = set(holders)
+        if not h:
+            continue
+        blk = body.blocks[bi]
+        for s in blk["s"]:
+            if s["k"] != "as":
+                continue
+            rv = s["rv"]
+            srcs = []
+            if rv["r"] in ("use", "cast") and rv["o"]["k"] == "mv" and rv["o"]["p"]["l"] in h:
+                srcs.append(rv["o"]["p"]["l"])
+            elif rv["r"] == "agg":
+                for o in rv["ops"]:
+                    if o["k"] == "mv" and o["p"]["l"] in h:
+                        srcs.append(o["p"]["l"])
+                if srcs and rv.get("ak") == "adt" and not rv["adt"].startswith("std::option::Option") and not rv["adt"].startswith("std::result::Result"):
+                    fates.add(("agg", rv["adt"]))
+            for src in srcs:
+                h.discard(src)
+                if "p" in s["p"]:
+                    fates.add(("store", _last_field(s["p"]) or "?"))
+                elif s["p"]["l"] == 0:
+                    fates.add(("return",))
+                else:
+                    h.add(s["p"]["l"])
+        term = blk["t"]
+        k = term["k"]
+        if k == "drop" and "p" not in term["p"] and term["p"]["l"] in h:
+            h.discard(term["p"]["l"])
+            fates.add(("drop",))
+        elif k == "call":
+            path = callee_path_of(term) or "<indirect>"
+            gen = mir.callee_generic(term["f"]) or ""
+            for a in term["a"]:
+                if a["k"] == "mv" and a["p"]["l"] in h and "p" not in a["p"]:
+                    h.discard(a["p"]["l"])
+                    if gen.endswith("IntoFuture::into_future") or path.endswith("Option::<T>::unwrap") or path.endswith("::into") or \
+                            gen.endswith("convert::Into::into") or gen.endswith("convert::From::from") or path.endswith("Some"):
+                        if "p" not in term["dst"]:
+                            h.add(term["dst"]["l"])
+                            if gen.endswith("IntoFuture::into_future"):
+                                fates.add(("await",))
+                    else:
+                        fates.add(("call", path))
+        elif k == "ret":
+            if 0 in h:
+                fates.add(("return",))
+        for tgt, _ in body.succ_edges(bi):
+            st = (tgt, frozenset(h))
+            if st not in seen:
+                seen.add(st)
+                stack.append(st)
+    return fates
